@@ -3,6 +3,7 @@
    discharged in proofs/FloatFacts.v (through Flocq), giving the unconditional theorem of
    props/C15.v. *)
 From Coq Require Import List ZArith Bool Arith Lia.
+From Coq Require Import ZifyBool ZifyNat.
 From Coq Require Import Floats.SpecFloat.
 From TR Require Import model.Ring model.Detector model.DetSpec.
 Import ListNotations.
@@ -42,6 +43,169 @@ Definition wf_frame (c : dcfg) (f : frame) : Prop :=
 Definition wf_stream (c : dcfg) (evs : list dev) : Prop :=
   Forall (fun e => match e with DFrame f => wf_frame c f | DReset => True end) evs.
 
+
+(* ---------------- grids, coordinates, folds ---------------- *)
+Lemma nth_map_seq : forall (A : Type) (F : nat -> A) n k d,
+    (k < n)%nat -> nth k (map F (seq 0 n)) d = F k.
+Proof.
+  intros A F n k d H.
+  rewrite (nth_indep _ d (F 0%nat)) by (rewrite map_length, seq_length; exact H).
+  rewrite map_nth, seq_nth by exact H. reflexivity.
+Qed.
+
+Lemma nth2_build : forall (A : Type) (F : nat -> nat -> A) h w y x d,
+    nth x (nth y (map (fun y => map (fun x => F y x) (seq 0 w)) (seq 0 h)) []) d =
+    if (y <? h)%nat && (x <? w)%nat then F y x else d.
+Proof.
+  intros A F h w y x d.
+  destruct (Nat.ltb_spec y h) as [Hy|Hy].
+  - rewrite nth_map_seq by exact Hy.
+    destruct (Nat.ltb_spec x w) as [Hx|Hx]; cbn [andb].
+    + apply nth_map_seq; exact Hx.
+    + apply nth_overflow. rewrite map_length, seq_length. exact Hx.
+  - cbn [andb]. rewrite (nth_overflow _ []) by (rewrite map_length, seq_length; exact Hy).
+    destruct x; reflexivity.
+Qed.
+
+Lemma gget_gbuild : forall h w f y x,
+    gget (gbuild h w f) y x = if (y <? h)%nat && (x <? w)%nat then f y x else 0.
+Proof. intros. unfold gget, gbuild. apply nth2_build. Qed.
+
+Lemma in_pairs : forall (y x : nat) (ly lx : list nat),
+    In (y, x) (flat_map (fun y => map (fun x => (y, x)) lx) ly) <-> In y ly /\ In x lx.
+Proof.
+  intros y x ly lx. rewrite in_flat_map. split.
+  - intros [y' [Hy Hx]]. apply in_map_iff in Hx. destruct Hx as [x' [E Hx]].
+    inversion E; subst. split; assumption.
+  - intros [Hy Hx]. exists y. split; [assumption|]. apply in_map_iff. exists x. split; auto.
+Qed.
+
+Lemma length_pairs : forall (ly lx : list nat),
+    length (flat_map (fun y => map (fun x => (y, x)) lx) ly) = (length ly * length lx)%nat.
+Proof.
+  intros ly lx. induction ly as [|y ly IH]; [reflexivity|].
+  cbn [flat_map length]. rewrite app_length, map_length, IH. reflexivity.
+Qed.
+
+Lemma in_icoords : forall c y x,
+    In (y, x) (icoords c) <->
+    (d_edge c <= y < d_h c - d_edge c)%nat /\ (d_edge c <= x < d_w c - d_edge c)%nat.
+Proof. intros. unfold icoords. rewrite in_pairs, !in_seq. lia. Qed.
+
+Lemma in_all_coords : forall c y x,
+    In (y, x) (all_coords c) <-> (y < d_h c)%nat /\ (x < d_w c)%nat.
+Proof. intros. unfold all_coords. rewrite in_pairs, !in_seq. lia. Qed.
+
+Lemma length_icoords : forall c,
+    length (icoords c) = ((d_h c - d_edge c - d_edge c) * (d_w c - d_edge c - d_edge c))%nat.
+Proof. intros. unfold icoords. rewrite length_pairs, !seq_length. reflexivity. Qed.
+
+Lemma fold_left_map_gen : forall (A B C : Type) (F : A -> C -> A) (g : B -> C) l a,
+    fold_left (fun a b => F a (g b)) l a = fold_left F (map g l) a.
+Proof. intros A B C F g l. induction l as [|b l IH]; intros a; [reflexivity|]. cbn [fold_left map]. apply IH. Qed.
+
+Lemma near_y_int : forall c y, wf_cfg c -> (d_edge c <= near_y c y < d_h c - d_edge c)%nat.
+Proof. intros c y (Hw & Hh & _). unfold near_y, clampn. lia. Qed.
+Lemma near_x_int : forall c x, wf_cfg c -> (d_edge c <= near_x c x < d_w c - d_edge c)%nat.
+Proof. intros c x (Hw & Hh & _). unfold near_x, clampn. lia. Qed.
+Lemma near_y_id : forall c y, (d_edge c <= y < d_h c - d_edge c)%nat -> near_y c y = y.
+Proof. intros c y H. unfold near_y, clampn. lia. Qed.
+Lemma near_x_id : forall c x, (d_edge c <= x < d_w c - d_edge c)%nat -> near_x c x = x.
+Proof. intros c x H. unfold near_x, clampn. lia. Qed.
+
+(* ---------------- the part of Detect that touches background / threshold ---------------- *)
+Definition dyn_part (c : dcfg) (s : dstate) (f : frame) : grid * list (list f32) * Z * Z :=
+  if d_dynamic c && negb (affected_by_ffc f) then
+    let '(bg', wts', avg, changed) := update_background c s f (s_affected s) in
+    let n := s_bgframes s + 1 in
+    (bg', wts', n, if changed && (d_preview c <? n) then calc_threshold c avg else s_thresh s)
+  else (s_bg s, s_wts s, s_bgframes s, s_thresh s).
+
+Lemma detect_fields : forall c s f,
+    let s' := fst (detect c s f) in
+    (s_bg s', s_wts s', s_bgframes s', s_thresh s') = dyn_part c s f /\
+    s_affected s' = affected_by_ffc f.
+Proof.
+  intros c s f. unfold detect, dyn_part.
+  destruct (if d_dynamic c && negb (affected_by_ffc f) then _ else _) as [[[bg1 wts1] n1] t1].
+  destruct (negb (s_firstdiff s)); [|destruct (affected_by_ffc f || s_affected s)];
+    cbn [fst s_bg s_wts s_bgframes s_thresh s_affected]; split; reflexivity.
+Qed.
+
+(* new background value at a pixel *)
+Definition bgi (s : dstate) (f : frame) (pf seed : bool) (y x : nat) : Z :=
+  if replaces s f pf seed y x then gget (f_pix f) y x else gget (s_bg s) y x.
+
+Definition new_bg (c : dcfg) (s : dstate) (f : frame) : grid :=
+  gbuild (d_h c) (d_w c)
+         (fun y x => bgi s f (s_affected s) (s_bgframes s + 1 =? 1) (near_y c y) (near_x c x)).
+
+Definition new_wts (c : dcfg) (s : dstate) (f : frame) : list (list f32) :=
+  if s_bgframes s + 1 =? 1 then s_wts s
+  else map (fun y => map (fun x =>
+         if interior c y x then
+           if replaces s f (s_affected s) false y x then f32_zero
+           else f32_add (wget (s_wts s) y x) f32_tenth
+         else wget (s_wts s) y x) (seq 0 (d_w c))) (seq 0 (d_h c)).
+
+(* interior values of the new background, row-major *)
+Definition ivals (c : dcfg) (s : dstate) (f : frame) : list Z :=
+  map (fun yx => bgi s f (s_affected s) (s_bgframes s + 1 =? 1) (fst yx) (snd yx)) (icoords c).
+
+Lemma dyn_part_dynamic : forall c s f,
+    d_dynamic c = true -> affected_by_ffc f = false ->
+    exists changed : bool,
+      dyn_part c s f =
+      (new_bg c s f, new_wts c s f, s_bgframes s + 1,
+       if changed then calc_thresh_gen (d_tmin c) (d_tmax c) (mean_fold (ivals c s f))
+       else s_thresh s).
+Proof.
+  intros c s f Hd Ha. unfold dyn_part. rewrite Hd, Ha. cbn [andb negb].
+  unfold update_background. cbv beta iota zeta.
+  eexists. f_equal. f_equal.
+  unfold calc_threshold, calc_thresh_gen, mean_fold, ivals.
+  rewrite map_length, length_icoords.
+  rewrite <- fold_left_map_gen. reflexivity.
+Qed.
+
+Lemma dyn_part_static : forall c s f,
+    affected_by_ffc f = true ->
+    dyn_part c s f = (s_bg s, s_wts s, s_bgframes s, s_thresh s).
+Proof. intros c s f Ha. unfold dyn_part. rewrite Ha, andb_false_r. reflexivity. Qed.
+
+Lemma interior_sum_zsum : forall c g,
+    interior_sum c g = zsum (map (fun yx => gget g (fst yx) (snd yx)) (icoords c)).
+Proof. intros. unfold interior_sum, zsum. apply fold_left_map_gen with (F := Z.add). Qed.
+
+Lemma new_bg_interior : forall c s f y x,
+    In (y, x) (icoords c) ->
+    gget (new_bg c s f) y x = bgi s f (s_affected s) (s_bgframes s + 1 =? 1) y x.
+Proof.
+  intros c s f y x Hin. apply in_icoords in Hin. destruct Hin as [Hy Hx].
+  unfold new_bg. rewrite gget_gbuild, near_y_id, near_x_id by assumption.
+  replace ((y <? d_h c)%nat && (x <? d_w c)%nat) with true by lia. reflexivity.
+Qed.
+
+Lemma interior_sum_new_bg : forall c s f, interior_sum c (new_bg c s f) = zsum (ivals c s f).
+Proof.
+  intros. rewrite interior_sum_zsum. unfold ivals. f_equal. apply map_ext_in.
+  intros [y x] Hin. apply new_bg_interior. exact Hin.
+Qed.
+
+(* one non-FFC frame of S15_run *)
+Definition frame_ok (c : dcfg) (tb : Z) (pa rs : bool) (f : frame) (o : dobs) : bool :=
+  let npix := Z.of_nat (length (icoords c)) in
+  if affected_by_ffc f then do_thresh o =? tb
+  else
+    interior_le c (do_bg o) (f_pix f) &&
+    border_replicates c (do_bg o) &&
+    (negb (pa || rs) || interior_eq c (do_bg o) (f_pix f)) &&
+    ((do_thresh o =? tb) ||
+     (let m := clampZ (d_tmin c) (d_tmax c) (interior_sum c (do_bg o) / npix) in
+      (Z.abs (do_thresh o - m) <=? 1) &&
+      ((d_tmin c =? 0) || (d_tmin c <=? do_thresh o)) &&
+      ((d_tmax c =? 0) || (do_thresh o <=? d_tmax c)))).
+
 Section C15.
   (* the set of values a background weight can take *)
   Variable wt_ok : f32 -> Prop.
@@ -62,8 +226,170 @@ Section C15.
       let m := clampZ tmin tmax (zsum vs / Z.of_nat (length vs)) in
       Z.abs (t - m) <= 1 /\ (tmin = 0 \/ tmin <= t) /\ (tmax = 0 \/ t <= tmax).
 
+  (* carried along the run: the monitor's arguments track the state; pixels and weights
+     stay in range *)
+  Definition Inv (s : dstate) (tb : Z) (pa rs : bool) : Prop :=
+    s_thresh s = tb /\ s_affected s = pa /\ (rs = true -> s_bgframes s = 0) /\
+    (forall y x, pix_ok (gget (s_bg s) y x)) /\
+    (forall y x, wt_ok (wget (s_wts s) y x)).
+
+  Lemma Inv_init : forall c, Inv (dinit c) (d_thresh0 c) false true.
+  Proof.
+    intros c. unfold Inv, dinit. cbn [s_thresh s_affected s_bgframes s_bg s_wts].
+    repeat split; try reflexivity.
+    - unfold zero_grid. rewrite gget_gbuild. destruct (_ && _); lia.
+    - unfold zero_grid. rewrite gget_gbuild. destruct (_ && _); lia.
+    - intros y x. unfold wget.
+      rewrite (nth2_build f32 (fun _ _ => f32_zero)). destruct (_ && _); exact H_wt0.
+  Qed.
+
+  Lemma Inv_reset : forall s tb pa rs, Inv s tb pa rs -> Inv (dreset s) tb pa true.
+  Proof.
+    intros s tb pa rs (Ht & Ha & Hr & Hp & Hw). unfold Inv, dreset.
+    cbn [s_thresh s_affected s_bgframes s_bg s_wts]. repeat split; auto; apply Hp.
+  Qed.
+
+  Section Frame.
+    Variables (c : dcfg) (s : dstate) (f : frame).
+    Hypothesis Hc : wf_cfg c.
+    Hypothesis Hf : wf_frame c f.
+    Hypothesis Hp : forall y x, pix_ok (gget (s_bg s) y x).
+    Hypothesis Hw : forall y x, wt_ok (wget (s_wts s) y x).
+
+    Lemma bgi_le : forall pf seed y x, bgi s f pf seed y x <= gget (f_pix f) y x.
+    Proof.
+      intros pf seed y x. unfold bgi, replaces.
+      destruct seed; cbn [orb]; [lia|]. destruct pf; cbn [orb]; [lia|].
+      destruct (SFltb _ _) eqn:E; [lia|].
+      eapply H_sub; [apply Hf|apply Hp|apply Hw|exact E].
+    Qed.
+
+    Lemma bgi_eq : forall pf seed y x, seed || pf = true -> bgi s f pf seed y x = gget (f_pix f) y x.
+    Proof. intros pf seed y x H. unfold bgi, replaces. rewrite H. reflexivity. Qed.
+
+    Lemma bgi_pix : forall pf seed y x, pix_ok (bgi s f pf seed y x).
+    Proof. intros. unfold bgi. destruct (replaces _ _ _ _ _ _); [apply Hf|apply Hp]. Qed.
+
+    Lemma new_bg_pix : forall y x, pix_ok (gget (new_bg c s f) y x).
+    Proof.
+      intros y x. unfold new_bg. rewrite gget_gbuild.
+      destruct (_ && _); [apply bgi_pix|unfold pix_ok; lia].
+    Qed.
+
+    Lemma new_wts_ok : forall y x, wt_ok (wget (new_wts c s f) y x).
+    Proof.
+      intros y x. unfold new_wts. destruct (s_bgframes s + 1 =? 1); [apply Hw|].
+      unfold wget at 1. rewrite nth2_build. destruct (_ && _); [|exact H_wt0].
+      destruct (interior c y x); [|apply Hw].
+      destruct (replaces _ _ _ _ _ _); [exact H_wt0|apply H_wt_step, Hw].
+    Qed.
+
+    Lemma new_bg_le : interior_le c (new_bg c s f) (f_pix f) = true.
+    Proof.
+      unfold interior_le. apply forallb_forall. intros [y x] Hin. cbn [fst snd].
+      rewrite new_bg_interior by exact Hin. apply Z.leb_le, bgi_le.
+    Qed.
+
+    Lemma new_bg_border : border_replicates c (new_bg c s f) = true.
+    Proof.
+      unfold border_replicates. apply forallb_forall. intros [y x] Hin. cbn [fst snd].
+      apply in_all_coords in Hin. destruct Hin as [Hy Hx].
+      pose proof (near_y_int c y Hc) as Hny. pose proof (near_x_int c x Hc) as Hnx.
+      apply Z.eqb_eq. unfold new_bg. rewrite !gget_gbuild.
+      rewrite (near_y_id c (near_y c y)), (near_x_id c (near_x c x)) by assumption.
+      replace ((y <? d_h c)%nat && (x <? d_w c)%nat) with true by lia.
+      replace ((near_y c y <? d_h c)%nat && (near_x c x <? d_w c)%nat) with true by lia.
+      reflexivity.
+    Qed.
+
+    Lemma new_bg_eq :
+      (s_bgframes s + 1 =? 1) || s_affected s = true -> interior_eq c (new_bg c s f) (f_pix f) = true.
+    Proof.
+      intros H. unfold interior_eq. apply forallb_forall. intros [y x] Hin. cbn [fst snd].
+      rewrite new_bg_interior by exact Hin. apply Z.eqb_eq, bgi_eq, H.
+    Qed.
+
+    Lemma new_thresh_ok :
+      let t := calc_thresh_gen (d_tmin c) (d_tmax c) (mean_fold (ivals c s f)) in
+      let m := clampZ (d_tmin c) (d_tmax c)
+                      (interior_sum c (new_bg c s f) / Z.of_nat (length (icoords c))) in
+      Z.abs (t - m) <= 1 /\ (d_tmin c = 0 \/ d_tmin c <= t) /\ (d_tmax c = 0 \/ t <= d_tmax c).
+    Proof.
+      destruct Hc as (Hcw & Hch & Hsz & Hmin & Hmax).
+      rewrite interior_sum_new_bg.
+      replace (length (icoords c)) with (length (ivals c s f)) by (unfold ivals; apply map_length).
+      assert (Hlen : length (ivals c s f) =
+                     ((d_h c - d_edge c - d_edge c) * (d_w c - d_edge c - d_edge c))%nat)
+        by (unfold ivals; rewrite map_length; apply length_icoords).
+      apply H_mean; try assumption.
+      - intros E. rewrite E in Hlen. cbn [length] in Hlen. symmetry in Hlen. apply Nat.eq_mul_0 in Hlen. lia.
+      - rewrite Hlen. eapply Nat.le_trans; [|exact Hsz].
+        rewrite (Nat.mul_comm (d_w c)). apply Nat.mul_le_mono; lia.
+      - unfold ivals. apply Forall_forall. intros v Hv. apply in_map_iff in Hv.
+        destruct Hv as [yx [E _]]. subst v. apply bgi_pix.
+    Qed.
+  End Frame.
+
+  Lemma frame_step : forall c s f tb pa rs,
+      wf_cfg c -> d_dynamic c = true -> wf_frame c f -> Inv s tb pa rs ->
+      let s' := fst (detect c s f) in
+      frame_ok c tb pa rs f (mkDO (s_bg s') (s_thresh s')) = true /\
+      Inv s' (s_thresh s') (affected_by_ffc f) (if affected_by_ffc f then rs else false).
+  Proof.
+    intros c s f tb pa rs Hc Hd Hf (Ht & Ha & Hr & Hp & Hw) s'.
+    destruct (detect_fields c s f) as [Hfields Haff]. fold s' in Hfields, Haff.
+    unfold frame_ok, Inv. cbn [do_bg do_thresh].
+    destruct (affected_by_ffc f) eqn:Eaff.
+    - rewrite dyn_part_static in Hfields by exact Eaff.
+      injection Hfields as Hbg Hwts Hn Hth. rewrite Hbg, Hwts, Hn, Hth.
+      split; [lia|]. refine (conj _ (conj _ (conj _ (conj _ _)))); auto.
+    - destruct (dyn_part_dynamic c s f Hd Eaff) as [changed Hdyn]. rewrite Hdyn in Hfields.
+      injection Hfields as Hbg Hwts Hn Hth. rewrite Hbg, Hwts.
+      split.
+      + rewrite new_bg_le, new_bg_border by assumption. cbn [andb].
+        apply andb_true_intro. split.
+        * destruct (pa || rs) eqn:Epr; [|reflexivity]. cbn [negb orb].
+          apply new_bg_eq; try assumption. rewrite Ha.
+          destruct rs; [rewrite (Hr eq_refl); reflexivity|].
+          rewrite orb_false_r in Epr. rewrite Epr. apply orb_true_r.
+        * destruct changed; [|lia].
+          pose proof (new_thresh_ok c s f Hc Hf Hp) as Hm. cbv zeta in Hm.
+          rewrite Hth. cbv zeta. lia.
+      + refine (conj _ (conj _ (conj _ (conj _ _)))); auto; try discriminate.
+        * apply new_bg_pix; assumption.
+        * apply new_wts_ok; assumption.
+  Qed.
+
+  Lemma S15_run_inv : forall c, wf_cfg c -> d_dynamic c = true ->
+      forall evs s tb pa rs, wf_stream c evs -> Inv s tb pa rs ->
+      S15_run c tb pa rs evs (dobs_run c s evs) = true.
+  Proof.
+    intros c Hc Hd. induction evs as [|e t IH]; intros s tb pa rs Hwf HI; [reflexivity|].
+    inversion Hwf as [|e' t' He Ht]; subst. destruct e as [f|].
+    - destruct (frame_step c s f tb pa rs Hc Hd He HI) as [Hok HI'].
+      change (dobs_run c s (DFrame f :: t)) with
+          (mkDO (s_bg (fst (detect c s f))) (s_thresh (fst (detect c s f))) ::
+           dobs_run c (fst (detect c s f)) t).
+      set (o := mkDO (s_bg (fst (detect c s f))) (s_thresh (fst (detect c s f)))) in *.
+      change (S15_run c tb pa rs (DFrame f :: t) (o :: dobs_run c (fst (detect c s f)) t)) with
+          (frame_ok c tb pa rs f o &&
+           S15_run c (do_thresh o) (affected_by_ffc f) (if affected_by_ffc f then rs else false) t
+                   (dobs_run c (fst (detect c s f)) t)).
+      rewrite Hok. cbn [andb]. apply IH; assumption.
+    - change (dobs_run c s (DReset :: t)) with
+          (mkDO (s_bg (dreset s)) (s_thresh (dreset s)) :: dobs_run c (dreset s) t).
+      change (S15_run c tb pa rs (DReset :: t)
+                      (mkDO (s_bg (dreset s)) (s_thresh (dreset s)) :: dobs_run c (dreset s) t)) with
+          ((s_thresh (dreset s) =? tb) && S15_run c tb pa true t (dobs_run c (dreset s) t)).
+      pose proof (Inv_reset s tb pa rs HI) as HI'.
+      replace (s_thresh (dreset s) =? tb) with true by (destruct HI' as [E _]; lia).
+      cbn [andb]. apply IH; assumption.
+  Qed.
+
   Theorem S15_holds_partial : forall c evs,
-      wf_cfg c -> wf_stream c evs ->
+      wf_cfg c -> d_dynamic c = true -> wf_stream c evs ->
       S15 c evs (dobs_run c (dinit c) evs) = true.
-  Admitted.
+  Proof.
+    intros c evs Hc Hd Hwf. unfold S15. apply S15_run_inv; try assumption. apply Inv_init.
+  Qed.
 End C15.
